@@ -2463,13 +2463,39 @@ def _notified_poll(it, args, dty, func):
     fut = _deref(args[0])
     if not (isinstance(fut, Agg) and fut.ty == "{notified}"):
         raise Unsupported(f"poll of {fut!r}")
-    n, gen0 = fut.f
+    n, gen0 = fut.f[0], fut.f[1]
+    if len(fut.f) > 2 and fut.f[2]:                     # completed by enable()
+        return Enum("std::task::Poll", 0, "Ready", [UNIT])
     if n.f[0] > gen0:
         return Enum("std::task::Poll", 0, "Ready", [UNIT])
     if n.f[1]:
         n.f[1] = False
         return Enum("std::task::Poll", 0, "Ready", [UNIT])
     return Enum("std::task::Poll", 1, "Pending", [])
+
+
+@model("tokio::sync::futures::Notified::enable", "tokio::sync::Notified::enable")
+def _notified_enable(it, args, dty, func):
+    """registers the waiter (a Notified already receives notify_waiters() calls made after its creation) and returns
+    whether it has completed: a stored notify_one permit is consumed at this point"""
+    fut = _deref(args[0])
+    while isinstance(fut, (Ref, BoxV)):
+        fut = _deref(fut.load())
+    if not (isinstance(fut, Agg) and fut.ty == "{notified}"):
+        raise Unsupported(f"enable of {fut!r}")
+    n, gen0 = fut.f[0], fut.f[1]
+    done = len(fut.f) > 2 and fut.f[2]
+    if not done:
+        if n.f[0] > gen0:
+            done = True
+        elif n.f[1]:
+            n.f[1] = False
+            done = True
+    if len(fut.f) > 2:
+        fut.f[2] = done
+    else:
+        fut.f.append(done)
+    return done
 
 
 @trait_model(r"^tokio::sync::(futures::)?Notified", "IntoFuture", "into_future")
@@ -2956,6 +2982,19 @@ def _pinned_box_poll(it, args, dty, func):
     if fn is None:
         raise Unsupported("async block body not found: " + str(coro.load().ty)[:100])
     return it.run_body(it.prog.body(fn), [coro, args[1]])
+
+
+@trait_model(r"^&mut ", "Future", "poll")
+def _ref_future_poll(it, args, dty, func):
+    """`(&mut fut).poll()` as written in `select! { _ = &mut notified => .. }`: forwards to the future behind the reference"""
+    r = args[0]
+    v = _deref(r)
+    while isinstance(v, (Ref, BoxV)):
+        r = v
+        v = _deref(v.load()) if isinstance(v, BoxV) else v.load()
+    if isinstance(v, Agg) and v.ty == "{notified}":
+        return _notified_poll(it, [r, args[1]], dty, func)
+    raise Unsupported(f"poll through &mut of {v!r}"[:120])
 
 
 @trait_model(r"^\{async block@", "IntoFuture", "into_future")
